@@ -299,11 +299,18 @@ def bounded(tier, seed):
             violations.append(dict(key='port_link_expand(%r)' % pl, observed=repr(got)[:200], required=repr(want)[:200]))
     # main(): --route-path / --simple -> the UCMM personality actually configured
     for argv, want in (([], 'none'), (['-S'], False), (['--simple'], False), (['--route-path', '1/0'], [{'port': 1, 'link': 0}]),
-                       (['--route-path', '[{"port": 2, "link": "10.0.0.1"}]'], [{'port': 2, 'link': '10.0.0.1'}]), (['-S', '--route-path', '[]'], [])):
+                       (['--route-path', '[{"port": 2, "link": "10.0.0.1"}]'], [{'port': 2, 'link': '10.0.0.1'}]), (['-S', '--route-path', '[]'], []),
+                       # the textual spellings of the simple personality that the --route-path help documents ("0/false to accept only empty route_path")
+                       (['--route-path', '0'], 'simple'), (['--route-path', 'false'], 'simple'), (['--route-path', '[]'], 'simple'),
+                       (['--route-path', 'null'], None)):
         ev += 1
         distinct.add(('main', tuple(argv)))
         got = main_personality(argv)
-        if got != want and len(violations) < 8:
+        if want == 'simple':
+            ok = got is not None and not isinstance(got, str) and not got          # False / 0 / []: only requests without a route path
+        else:
+            ok = got == want
+        if not ok and len(violations) < 8:
             violations.append(dict(key='main(%r)' % (argv,), observed='UCMM personality %r' % (got,), required='%r' % (want,)))
     bad = check_pairs()
     ev += 30
